@@ -5,9 +5,25 @@ from ..py.eff import Eff
 _cache = {}
 
 
+def make_inliner(ix):
+    from ..py import norm
+
+    def inliner(call):
+        import ast
+        if isinstance(call.func, ast.Name):
+            mods = [m for m in ix.mods if ix.resolve_name(m, call.func.id) in ix.funcs]
+            quals = {ix.resolve_name(m, call.func.id) for m in mods}
+            if len(quals) == 1:
+                return norm.inline_call(ix, mods[0], call)
+        return None
+    return inliner
+
+
 def index(rep):
     if "ix" not in _cache:
         _cache["ix"] = Index(rep)
+        from ..py import guards
+        guards.set_inliner(make_inliner(_cache["ix"]))
     else:
         for rel, src in [("blackbird_python/blackbird/%s.py" % m, s) for m, s in _cache["ix"].src.items()]:
             rep.file(rel, src)
